@@ -19,6 +19,15 @@ claimed = {
  "C10": dict(cat="model_checking", tech="explicit-state BFS over operation histories on the real code (virtual clock for approval timeouts), reference model stepped alongside",
              text="Breadth-first search over histories of subscribe/bind/local client bookkeeping/writes pending approval/disconnect/entity removal/reconnect/timer expiry by two peers with identical numbering; after each transition registries, bookkeeping, pending approvals, armed timers, resolution by SKI/address, events and every connection's outbound trace (including removed connections) are compared with the reference.",
              ref="4 C10"),
+ "C12": dict(cat="model_checking", tech="stateless schedule exploration of the real code with a virtual clock (timer expiry is a scheduler choice), iterative deviation bounding, race detector per schedule",
+             text="For 1-3 approval callbacks, all verdict vectors over {approve, deny, silent+late} and one or two concurrently pending writes, every interleaving of the callback goroutines, the delivering connection and the approval timeout up to the stated deviation bound is executed on the real FeatureLocal; per write: presented once to every callback, exactly one outcome, deny/silent => error and data unchanged, unanimous approval before the timeout => applied.",
+             ref="4 C12"),
+ "C13": dict(cat="model_checking", tech="explicit-state BFS over request/response and notify/lookup histories + stateless schedule exploration of 3 threads on one Sender, race detector per schedule",
+             text="BFS to closure over requests (2 destinations x 2 commands x read/call) and responses (outstanding, answered, unknown), from preludes of 19-23 unanswered requests and of 98-101 notifications, against a reference set of unanswered requests; all interleavings of three threads calling Request/Notify/Write/Reply/Result/Subscribe/Bind up to the preemption bound: counters distinct, increasing for non-overlapping calls, withheld only for an identical unanswered request, bounded memory, last 100 notifications retrievable.",
+             ref="4 C13"),
+ "C15": dict(cat="model_checking", tech="stateless schedule exploration of the real event bus (iterative preemption bounding / trace-key pruning), call/return history oracle, race detector per schedule",
+             text="Six closed drivers (publish vs subscribe/unsubscribe, two publishers, (un)subscription and publication from inside handlers, a handler that blocks until Publish returned, double subscription) with two core and two application handlers; every interleaving up to the bound; the call/return log decides per (handler, event) whether delivery must happen once, must not happen, or may; core handlers finish before Publish returns and before any application handler starts; no deadlock.",
+             ref="4 C15"),
 }
 checks = []
 for pid, c in sorted(claimed.items()):
